@@ -346,8 +346,12 @@ def run(chk, replay=None):
                 cex({'kind': 'reporting', 'form': form, 'route': 'net.Y'}, inp,
                     {'form': form, 'network': str(net), 'x': fstr(x), 'net.Y': ygot, 'net.Z': zgot, 'Z_requested': sv},
                     'net.Y of the synthesised network is not the reciprocal of the requested impedance')
-        if symvals or state['consistency'] > (30 if quick else 200) or has_zero_element(net):
+        if symvals or state['consistency'] > (30 if quick else 200):
             chk.count('consistency', 'cct:skipped')
+            return
+        hz, ehz = L_.timed(lambda: has_zero_element(net), 5)
+        if ehz or hz:
+            chk.count('consistency', 'cct:skipped-zero-or-unevaluable-element')
             return
         cgot, e3 = L_.timed(lambda: eval_expr(net.cct.impedance(1, 0), symvals, x), tlimit)
         if e3:
@@ -409,9 +413,8 @@ def run(chk, replay=None):
             if m[0] == 'ok' and m[1] != got:
                 disagree(form + ':value', inp, got, model[i])
                 return
-        try:
-            lv = leaves_of(net)
-        except Exception:   # noqa
+        lv, elv = L_.timed(lambda: leaves_of(net), 5)
+        if elv:
             chk.count('degenerate', 'elements-unevaluable')
             return
         if lv != sorted(m0[3:]):
@@ -436,7 +439,8 @@ def run(chk, replay=None):
         if not symvals:
             # the model works on the cancelled N/D (what Ratfun sees after sym.cancel in as_B_A); root tables by SymPy
             cN, cD = S.fraction(S.cancel(sub_sym(S.sympify(Zs), None)))
-            tabD, tabN = root_table(cD), root_table(cN)
+            tabD, e7 = L_.timed(lambda: root_table(cD), 5)
+            tabN, e8 = L_.timed(lambda: root_table(cN), 5)
             cNt, cDt = coeffs(S.expand(cN)), coeffs(S.expand(cD))
         for form in forms:
             net, err, msg = call(lambda: Zl.network(form))
@@ -507,7 +511,9 @@ def run(chk, replay=None):
                     # model of transform: network(net.Z) on the network Lcapy returned
                     if pts and e3 != 'timeout':
                         try:
-                            toks = net_tokens(net)
+                            toks, etk = L_.timed(lambda: net_tokens(net), 5)
+                            if etk:
+                                raise ValueError('network not serialisable: %s' % etk)
                             mt = ask('syn.transform %s | %s | %s | %s | %s' % (f2, ' '.join(toks), ' '.join(tabD or []), ' '.join(tabN or []), fstr(pts[0][0])))
                             mrep = mt.split(' ; ')[2] if ' ; ' in mt else mt
                             if (f2 == 'fosterI' and tabD is None) or (f2 == 'fosterII' and tabN is None):
@@ -553,7 +559,8 @@ def run(chk, replay=None):
             Nt, Dt = coeffs(S.expand(cN)), coeffs(S.expand(cD))
         except Exception:   # noqa
             return
-        tabD, tabN = root_table(cD), root_table(cN)
+        tabD, e7 = L_.timed(lambda: root_table(cD), 5)
+        tabN, e8 = L_.timed(lambda: root_table(cN), 5)
         pts = points(Nt, Dt, 1, nonzero_value=True)
         if not pts:
             return
